@@ -235,6 +235,46 @@ def loaded_subterms(t):
             yield from loaded_subterms(x)
 
 
+def subst_loaded(t, mapping):
+    """like subst, but an lvalue under an address-of is an address, not a value: &p[i] keeps p[i] (its subscript is rewritten)"""
+    if not isinstance(t, tuple) or not t:
+        return t
+    if t[0] == "addr":
+        lv = t[1]                   # the lvalue itself is not loaded; what it is built from (pointer, subscript) is
+        if lv[0] == "idx":
+            return addr(idx(subst_loaded(lv[1], mapping), subst_loaded(lv[2], mapping)))
+        if lv[0] == "fld":
+            inner = lv[1]
+            if inner[0] == "idx":
+                inner = idx(subst_loaded(inner[1], mapping), subst_loaded(inner[2], mapping))
+            return addr(fld(inner, lv[2]))
+        return t
+    if t in mapping:
+        return mapping[t]
+    k = t[0]
+    if not isinstance(k, str):
+        return tuple(subst_loaded(x, mapping) for x in t)
+    if k == "poly":
+        r = ZERO
+        for m, c in t[1]:
+            prod = ("int", c)
+            for x in m:
+                prod = mul(prod, subst_loaded(x, mapping))
+            r = add(r, prod)
+        return r
+    if k in ("int", "float", "str", "sym", "var", "glob", "unk"):
+        return t
+    if k == "idx":
+        return idx(subst_loaded(t[1], mapping), subst_loaded(t[2], mapping))
+    if k == "fld":
+        return fld(subst_loaded(t[1], mapping), t[2])
+    if k == "op":
+        return binop(t[1], subst_loaded(t[2], mapping), subst_loaded(t[3], mapping))
+    if k == "call":
+        return ("call", t[1], tuple(subst_loaded(x, mapping) for x in t[2]))
+    return tuple(subst_loaded(x, mapping) if isinstance(x, tuple) and x and isinstance(x[0], str) else x for x in t)
+
+
 def atoms_top(t):
     """atoms occurring as factors of the monomials of t (not their sub-terms)"""
     out = set()
